@@ -185,3 +185,130 @@ pub fn run(args: &Args, which: &str) -> SubResult {
         }
     })
 }
+
+// ------------------------------------------------------------------------------------------------
+// schedules: "the change has been notified" must be enough whatever the reloader was doing when
+// the asset was loaded (messages of the cache are taken before events)
+
+use crate::hr::{L, N};
+use crate::mem::Mem;
+use crate::util::{Exp, Mk};
+use assets_manager::{source::OwnedDirEntry, AssetCache};
+use detsched as ds;
+use serde_json::{json, Value};
+use std::sync::Arc;
+
+pub fn mk_sched(p: &Value) -> Arc<Mk> {
+    let variant = p["variant"].as_str().unwrap().to_string();
+    let seed = p["seed"].as_u64().unwrap_or(0);
+    let batch = p["batch"].as_bool().unwrap_or(false);
+    Arc::new(move || {
+        let variant = variant.clone();
+        Box::new(move || {
+            ahash::stub_set_seed(seed);
+            crate::hr::ledger_reset();
+            let m = Mem::new(true);
+            m.put("k", "l", "1");
+            m.put("j", "l", "2");
+            m.put("j2", "l", "3");
+            m.put("t", "n", "L:k");
+            let cache: &'static AssetCache<Mem> = Box::leak(Box::new(AssetCache::with_source(m.clone())));
+            ds::adopt(1, "reloader");
+            let file = |id: &str| OwnedDirEntry::File(id.into(), "l".into());
+            let mut expect: Vec<(String, String)> = vec![];
+            match variant.as_str() {
+                "leaf" | "static" | "traffic" | "node" | "two" => {
+                    let traffic = if variant == "traffic" {
+                        Some(ds::spawn("loader", move || {
+                            let _ = cache.load::<L>("j");
+                            let _ = cache.load::<L>("j2");
+                        }))
+                    } else {
+                        None
+                    };
+                    if variant == "node" {
+                        cache.load::<N>("t").unwrap();
+                    } else {
+                        cache.load::<L>("k").unwrap();
+                    }
+                    if variant == "two" {
+                        cache.load::<L>("j").unwrap();
+                    }
+                    if variant == "static" {
+                        cache.enhance_hot_reloading();
+                    }
+                    // the change is made and notified after the load call returned
+                    m.put("k", "l", "11");
+                    if variant == "two" {
+                        m.put("j", "l", "12");
+                        if batch {
+                            m.ev_batch(vec![file("k"), file("j")]);
+                        } else {
+                            m.ev(file("k"));
+                            m.ev(file("j"));
+                        }
+                        expect.push(("j".into(), "12".into()));
+                    } else {
+                        m.ev(file("k"));
+                    }
+                    expect.push(("k".into(), "11".into()));
+                    if let Some(t) = traffic {
+                        t.join().unwrap();
+                    }
+                    ds::quiesce();
+                    if variant != "static" {
+                        cache.hot_reload();
+                    }
+                    for (id, want) in &expect {
+                        let got = cache.get_cached::<L>(id).map(|h| h.read().v.to_string()).unwrap_or("-".into());
+                        ds::log(format!("value {id} got={got} want={want}"));
+                    }
+                    if variant == "node" {
+                        let t = cache.get_cached::<N>("t").unwrap().read().text.clone();
+                        ds::log(format!("value t got={t} want=L:k => L:k=11"));
+                    }
+                }
+                _ => panic!("variant"),
+            }
+        })
+    })
+}
+
+pub fn judge_sched(r: &ds::RunResult) -> Option<(String, String)> {
+    for l in &r.log {
+        if let Some(rest) = l.strip_prefix("value ") {
+            let got = rest.split(" got=").nth(1)?.split(" want=").next()?;
+            let want = rest.split(" want=").nth(1)?;
+            if got != want {
+                return Some(("c05:notified-change-lost".into(), format!("the change was notified after the load returned and taken in before hot_reload, yet: {rest}")));
+            }
+        }
+    }
+    None
+}
+
+pub fn run_sched(args: &Args) -> SubResult {
+    let mut res = SubResult::new("C05", "c05_sched");
+    let thorough = args.thorough();
+    let bound = if thorough { 3 } else { 2 };
+    res.bound = format!("variants {{leaf, node over leaf, enhance_hot_reloading, two assets (single events / one batch), concurrent loader traffic}} x hash seeds 0,5: load; edit; notify; quiesce; hot_reload with NO barrier between the load and the notification; every schedule with <= {bound} preemptions and both Select::ready answers");
+    res.rule = "every schedule within the bound; oracle: after the pass the cached value is the edited one; distinct = distinct (variant, observation log)".into();
+    let mut cases = vec![];
+    for v in ["leaf", "node", "static", "two", "traffic"] {
+        for seed in [0u64, 5] {
+            for batch in [false, true] {
+                if batch && v != "two" {
+                    continue;
+                }
+                cases.push(json!({"variant": v, "seed": seed, "batch": batch}));
+            }
+        }
+    }
+    let total = cases.len();
+    vcommon::run_cases(args, res, total, std::time::Duration::from_secs(if thorough { 3000 } else { 300 }), |idx, res| {
+        let p = &cases[idx];
+        let mk = mk_sched(p);
+        let mut e = Exp { res, harness: "c05_sched", params: p.clone(), bound, max_exec: if thorough { 300_000 } else { 20_000 }, cfg: ds::Config { writer_pref: false, horizon: 0, record_ops: false } };
+        e.run(&*mk, &mut |r| judge_sched(r));
+    })
+}
